@@ -372,7 +372,8 @@ Fixpoint reduction_from (fuel : nat) (cf : cfg) (cands : list cand) (steps : lis
               | ns => reduction_from fuel cf ns steps' obs'
               end
       end
-  | _, _ => []
+  | [], [] => []
+  | _, _ => [1%nat]    (* steps and observations of different length: as in [agree_from] *)
   end.
 
 Definition cfg_of (pname : Z) (buf : nat) (icp : Z) : cfg := mkCfg pname buf (icp_of icp).
